@@ -31,7 +31,7 @@ class FuncSpec(dict):
 
 
 def gen_function(rng, name="f_target", kind=None, style=None, doc_mode=None, order=None, with_body=False, max_pos=4, max_kw=3,
-                 force_partial_defaults=None, p_default_sentence=0.0, p_no_params=None):
+                 force_partial_defaults=None, p_default_sentence=0.0, p_no_params=None, p_two_announcements=0.0):
     """Returns FuncSpec(src=..., params=[...], ...).  params: list of dicts with
     name, kind(pos|kwonly|kwargs), default_src|None, default_class, annotation|None,
     documented(bool), doc(str|None), doc_typ(str|None)."""
@@ -83,6 +83,10 @@ def gen_function(rng, name="f_target", kind=None, style=None, doc_mode=None, ord
                 if p["default_class"].startswith("code"):
                     shown = "```{}```".format(shown)
                 p["doc"] += ". Defaults to {}".format(shown)
+                p["doc_states_default"] = True
+            elif p_two_announcements and rng.random() < p_two_announcements:
+                # hand-written prose that announces two values with two different phrases
+                p["doc"] += ". Default: 0.001. With the zq optimiser it defaults to 0.01"
                 p["doc_states_default"] = True
             # type in the docstring: numpydoc/google need one; rest optionally
             if style in ("numpydoc", "google") or rng.random() < 0.4:
